@@ -8,7 +8,27 @@ from ..core import CaseInvalid
 from ..harness import Violation
 
 PROP = "C13"
-ZONES = ["UTC", "Europe/Berlin", "America/New_York", "Asia/Kolkata"]
+ZONES = ["UTC", "Europe/Berlin", "America/New_York", "Asia/Kolkata", "Australia/Adelaide", "America/St_Johns", "Pacific/Auckland"]
+
+
+def dst_transitions(z, year):
+    """Epoch seconds of the UTC-offset changes of zone z in `year` (binary search per day)."""
+    out = []
+    t = int(DT(year, 1, 1, tzinfo=datetime.timezone.utc).timestamp())
+    end = int(DT(year + 1, 1, 1, tzinfo=datetime.timezone.utc).timestamp())
+    off = lambda x: datetime.datetime.fromtimestamp(x, z).utcoffset()
+    while t < end:
+        if off(t) != off(t + 86400):
+            lo, hi = t, t + 86400
+            while hi - lo > 1:
+                mid = (lo + hi) // 2
+                if off(mid) == off(lo):
+                    lo = mid
+                else:
+                    hi = mid
+            out.append(hi)
+        t += 86400
+    return out
 OPS = ["=", "!=", "<", "<=", ">", ">="]
 DT = datetime.datetime
 
@@ -93,10 +113,15 @@ class Check:
                 pts.append(base + datetime.timedelta(seconds=delta))
         pts += [a - datetime.timedelta(days=1), b + datetime.timedelta(days=1), a.replace(day=1), DT(a.year, 1, 1), DT(a.year, 12, 31, 23, 59, 59),
                 a + datetime.timedelta(hours=12), DT(a.year, a.month, 28, 12, 0, 0) + datetime.timedelta(days=4)]
-        for i, p in enumerate(pts):
-            if p.year < 1971:
-                continue
-            ts = int(p.replace(tzinfo=z).timestamp())
+        stamps = []
+        for p in pts:
+            if p.year >= 1971:
+                stamps.append(int(p.replace(tzinfo=z).timestamp()))
+        # instants around the zone's DST switches of the literal's year (skipped and repeated local hours)
+        if a.year >= 1971:
+            for tr in dst_transitions(z, a.year)[:2]:
+                stamps += [tr - 1, tr, tr + 1800, tr - 1800]
+        for i, ts in enumerate(stamps):
             nodes.append({"path": top + ("/sub" if i % 3 == 0 else "") + "/f%02d" % i, "type": "file", "content": "x", "mtime": ts * 10 ** 9 + rng.choice([0, 0, 999999999])})
         world = {"nodes": nodes}
         for n in world["nodes"]:
